@@ -153,6 +153,9 @@ def deco_text(kind: str, c: Dict[str, Any]) -> str:
         fn = "lambda {}: HUB.cond({!r}, {})".format(", ".join(args), cid, got_text(args))
     else:
         fn = "c_{}".format(cid)
+    if c.get("via_helper"):
+        # the decorator object is created inside a helper: every contract made this way records the same source location
+        return "@MK({!r}, {}, description={!r}{})".format(deco, fn, "D:" + cid, _err_kw(c))
     return "@icontract.{}({}, description={!r}{})".format(deco, fn, "D:" + cid, _err_kw(c))
 
 
@@ -225,6 +228,10 @@ import functools
 import icontract
 
 EDEFAULT = object()  # default value of error-factory parameters that name call values
+
+
+def MK(kind, *args, **kwargs):
+    return getattr(icontract, kind)(*args, **kwargs)
 
 def foreign(tag):
     def deco(func):
